@@ -3,3 +3,4 @@ import Props.C18
 import Props.C09
 import Props.C06
 import Props.C16
+import Props.C14
